@@ -232,6 +232,43 @@ def main(argv):
         from . import selfcheck
         return selfcheck.main(int(os.environ.get('VERIF_SEED', '0') or 0))
     from . import contracts as C
+    if args.replay:
+        # python3-vt check.py --replay <file>: shows the failed obligation a replay file records and, when the file
+        # carries a native input, runs that input against the real code of the current tree again
+        from .replay import run_native
+        d = json.load(open(args.replay))
+        print(f"property   {d.get('property')}")
+        print(f"obligation {d.get('obligation')}   (function {d.get('function')}, back end {d.get('backend')})")
+        print(f"goal       {str(d.get('goal'))[:600]}")
+        rp = d.get('replay') or {}
+        if rp.get('confirmed') and rp.get('input') is not None:
+            fq = d.get('function')
+            fi = None
+            for q in C.CONTRACTS:
+                if q == fq:
+                    fi = q
+            req = {'func': fq, 'receiver': d.get('receiver'), 'args': rp['input']}
+            from .front import Repo
+            repo = Repo()
+            f_ = repo.funcs.get(fq)
+            req['kind'] = ('init' if f_ is not None and f_.node.name == '__init__' else (f_.kind if f_ is not None else 'function'))
+            if rp.get('self') is not None:
+                req['self'] = rp['self']
+            obs = run_native(req, timeout_s=5)
+            print(f"input      {json.dumps(rp['input'])[:600]}")
+            print(f"recorded   {rp.get('observed')}")
+            print(f"now        {json.dumps(obs)[:600]}")
+            same = (obs.get('outcome') == (rp.get('native') or {}).get('outcome'))
+            print('REPRODUCED' if same and obs.get('outcome') in ('raise', 'timeout') else 'NOT-REPRODUCED (the current tree behaves differently)')
+            return 1 if same and obs.get('outcome') in ('raise', 'timeout') else 0
+        if rp.get('evaluated'):
+            print(f"evaluated  {str(rp.get('evaluated'))[:1200]}")
+            print('re-run the check to evaluate the current tree again')
+            return 0
+        print(f"solver     {str(d.get('solver_model'))[:1200]}")
+        print('no-failing-input-found: this file names the failed obligation and carries the solver output; there is no '
+              'native input to run')
+        return 0
     if args.func is not None:
         tasks = []
         for fq in args.func:
